@@ -221,7 +221,7 @@ class AlternateDataStream(_STIXBase21):
     _properties = OrderedDict([
         ('name', StringProperty(required=True)),
         ('hashes', HashesProperty(HASHING_ALGORITHM, spec_version="2.1")),
-        ('size', IntegerProperty()),
+        ('size', IntegerProperty(min=0)),
     ])
 
 
